@@ -155,10 +155,25 @@ access(all) attachment AS for S1 {}
 access(all) enum En: UInt8 { access(all) case a }
 `
 
-var compNames = []string{"S1", "S2", "S3", "R1", "R2", "R3", "AR", "AS", "En"}
-var ifaceNames = []string{"I1", "I2", "I3", "RI", "RJ", "StructStringer"}
-var entNames = []string{"E", "F", "G"}
-var mapNames = []string{"M"}
+// The declaration program is checked twice, at two different addresses: the same qualified names
+// denote distinct types ("S1" is A.0000000000000001.S1, "S1@2" is A.0000000000000002.S1).
+var baseCompNames = []string{"S1", "S2", "S3", "R1", "R2", "R3", "AR", "AS", "En"}
+var baseIfaceNames = []string{"I1", "I2", "I3", "RI", "RJ"}
+var baseEntNames = []string{"E", "F", "G"}
+var baseMapNames = []string{"M"}
+
+func at2(names []string) []string {
+	var out []string
+	for _, n := range names {
+		out = append(out, n+"@2")
+	}
+	return out
+}
+
+var compNames = append(append([]string{}, baseCompNames...), at2(baseCompNames)...)
+var ifaceNames = append(append(append([]string{}, baseIfaceNames...), "StructStringer"), at2(baseIfaceNames)...)
+var entNames = append(append([]string{}, baseEntNames...), at2(baseEntNames)...)
+var mapNames = append(append([]string{}, baseMapNames...), at2(baseMapNames)...)
 
 type Env struct {
 	Checker *sema.Checker
@@ -170,14 +185,15 @@ type Env struct {
 }
 
 var envLocation = common.NewAddressLocation(nil, common.MustBytesToAddress([]byte{0x1}), "Decls")
+var envLocation2 = common.NewAddressLocation(nil, common.MustBytesToAddress([]byte{0x2}), "Decls")
 
-func NewEnv() *Env {
+func checkEnvProgram(location common.Location) *sema.Checker {
 	program, err := parser.ParseProgram(nil, []byte(envProgram), parser.Config{})
 	if err != nil {
 		panic(fmt.Errorf("environment program does not parse: %w", err))
 	}
-	checker, err := sema.NewChecker(program, envLocation, nil, &sema.Config{
-		AccessCheckMode:    sema.AccessCheckModeStrict,
+	checker, err := sema.NewChecker(program, location, nil, &sema.Config{
+		AccessCheckMode: sema.AccessCheckModeStrict,
 	})
 	if err != nil {
 		panic(err)
@@ -185,9 +201,20 @@ func NewEnv() *Env {
 	if err := checker.Check(); err != nil {
 		panic(fmt.Errorf("environment program does not check: %w", err))
 	}
+	return checker
+}
+
+func NewEnv() *Env {
+	checker := checkEnvProgram(envLocation)
+	checker2 := checkEnvProgram(envLocation2)
 	e := &Env{Checker: checker}
 	get := func(name string) sema.Type {
-		v, ok := checker.Elaboration.GetGlobalType(name)
+		c := checker
+		if strings.HasSuffix(name, "@2") {
+			c = checker2
+			name = strings.TrimSuffix(name, "@2")
+		}
+		v, ok := c.Elaboration.GetGlobalType(name)
 		if !ok {
 			panic("missing global type " + name)
 		}
@@ -209,15 +236,21 @@ func NewEnv() *Env {
 	for _, n := range mapNames {
 		e.Maps = append(e.Maps, get(n).(*sema.EntitlementMapType))
 	}
+	elabFor := func(location common.Location) *sema.Elaboration {
+		if location == common.Location(envLocation2) {
+			return checker2.Elaboration
+		}
+		return checker.Elaboration
+	}
 	inter, err := interpreter.NewInterpreter(
 		interpreter.ProgramFromChecker(checker),
 		envLocation,
 		&interpreter.Config{
 			ImportLocationHandler: func(inter *interpreter.Interpreter, location common.Location) interpreter.Import {
-				return interpreter.VirtualImport{Elaboration: checker.Elaboration}
+				return interpreter.VirtualImport{Elaboration: elabFor(location)}
 			},
 			CompositeTypeHandler: func(location common.Location, typeID interpreter.TypeID) *sema.CompositeType {
-				return checker.Elaboration.CompositeType(typeID)
+				return elabFor(location).CompositeType(typeID)
 			},
 		},
 	)
